@@ -2,7 +2,7 @@
 from runner import Ob
 
 KI = dict(INT=1, INTLIST=2, STR=3, STRLIST=4, BOOL=5, FLOATLIST=6, SECT=7, SECM=8, SEC=9)
-OP = dict(SETN=1, WRONGTYPE=2, SETLIST=3, ADDLIST=4, SETMULTI=5, ADDTSEC=6, RMNSEC=7, RMTSEC=8, SETOPT_TEXT=9, SETNINT_VETO=10, SETNSTR_VETO=11, SETNFLOAT_VETO=12)
+OP = dict(SETN=1, WRONGTYPE=2, SETLIST=3, ADDLIST=4, SETMULTI=5, ADDTSEC=6, RMNSEC=7, RMTSEC=8, SETOPT_TEXT=9, SETNINT_VETO=10, SETNSTR_VETO=11, SETNFLOAT_VETO=12, SIMPLE_SET=13)
 
 
 def _ob(tag, op, kind, nv, n=1, extra=(), checks="none", chk=()):
@@ -73,4 +73,10 @@ def api_obs(tag, chk, ops=None, checks="none", tier="quick"):
     add("SETNSTR_VETO", "STRLIST", 0)
     add("SETNSTR_VETO", "STRLIST", 2)
     add("SETNFLOAT_VETO", "FLOATLIST", 2)
+    # the index-less by-name wrappers (cfg_setint / cfg_setstr / cfg_setfloat) are the same update: same veto
+    add("SIMPLE_SET", "INT", 0)
+    add("SETNINT_VETO", "INT", 1, extra=("VIA_WRAPPER",))
+    add("SETNSTR_VETO", "STR", 1, extra=("VIA_WRAPPER",))
+    add("SETNSTR_VETO", "STRLIST", 2, extra=("VIA_WRAPPER",))
+    add("SETNFLOAT_VETO", "FLOATLIST", 2, extra=("VIA_WRAPPER",))
     return obs
